@@ -60,6 +60,9 @@ def gen_shape(rng, nmin=2, nmax=9, mix=None, pri="small", seq_rate=0.2, flags=Tr
             keys = []
             if (spec_shape(fns, nodes[j]) or [None])[0] == "tuple" and j not in flagged and rng.random() < 0.6:
                 keys = [rng.randrange(2)]
+            elif spec_shape(fns, nodes[j]) is None and j not in flagged and kinds and rng.random() < 0.12:
+                # indexing an opaque result (half of the symbolic terms are falsy, like an empty Counter that is indexed)
+                keys = [rng.choice([0, "k", 3])] + ([rng.choice([1, "z"])] if rng.random() < 0.3 else [])
             a = ["n", j, keys]
             r = rng.random()
             if flags and kinds and r < 0.12 and nd["active"] is None:
@@ -425,7 +428,12 @@ def check_all(case, props=None):
                 if any(e["kind"] == "CHOICE" for e in v.evs) and x in v.xenter and x not in v.inline and v.xenter[x] > s:
                     r2 = [y for y in ready_certain(v.xenter[x]) if y != i]
                     for y in r2:
-                        if v.cp[y] > v.cp[i] and not (ids[y] in v.decision and v.decision[ids[y]] <= v.xenter[x]):
+                        # only readiness established by a wait DELIVERY between the dispatch and the actual start counts (a
+                        # deactivated node pruned in between, or an inline main-thread node that ran before the loop could start
+                        # the async task, make successors ready without any wait: legitimate)
+                        by_delivery = any(ids[j] in v.delivered and ids[j] not in v.inline and s < v.delivered[ids[j]] < v.xenter[x]
+                                          for j, _k in S.deps_of(spec["nodes"][y]))
+                        if by_delivery and v.cp[y] > v.cp[i] and not (ids[y] in v.decision and v.decision[ids[y]] <= v.xenter[x]):
                             add("C06", "queued_node_started_while_higher_priority_node_ready", started=x, cp_started=v.cp[i],
                                 better=ids[y], cp_better=v.cp[y], dispatched_at=s, actually_started_at=v.xenter[x])
                             break
